@@ -195,3 +195,68 @@ def _refusal_history(spec, model):
         if (out == 'ValueError') == inside:
             bad.append({'data': {'pressure': p, 'loading': l}, 'query': q, 'inside_range': inside, 'outcome': out})
     return {'confirmed': bool(bad), 'observed': bad[:3], 'expected': 'ValueError outside the measured range, a value inside it'}
+
+
+def interpolation_cases():
+    """real interpolators of real point isotherms whose stored numbers are large, ordinary and very small (1e-9 bar: low-pressure
+    micropore data; 1e-9 mol): interpolated values coincide with the data at measured points, lie on the straight line between
+    neighbours, are refused outside the measured range (1e-6 relative beyond either end) without a fill rule, and agree with a
+    copy permanently converted to another unit"""
+    import pygaps
+    pygaps.logger.disabled = True
+    base_p = numpy.array([2.0, 3.0, 5.0, 8.0, 13.0, 21.0, 34.0])
+    base_l = numpy.array([0.1, 0.3, 0.55, 0.9, 1.4, 2.2, 3.0])
+    for tag, fp, fl in (('ordinary', 1e-2, 1.0), ('tiny_pressures', 1e-9, 1.0), ('tiny_loadings', 1e-2, 1e-9), ('large', 1e3, 1e3), ('both_tiny', 1e-10, 1e-10)):
+        p, l = base_p * fp, base_l * fl
+        pp, ll = list(p) + list(p[::-1][1:]), list(l) + list(l[::-1][1:] * 1.2)
+        iso = pygaps.PointIsotherm(pressure=pp, loading=ll, branch=[0] * 7 + [1] * 6, material='pgv_c03', adsorbate='nitrogen', temperature=77.355,
+                                   pressure_mode='absolute', pressure_unit='bar', loading_basis='molar', loading_unit='mmol', material_basis='mass',
+                                   material_unit='g', temperature_unit='K')
+        for br in ('ads', 'des'):
+            ps = numpy.asarray(iso.pressure(branch=br), dtype=float)
+            ls = numpy.asarray(iso.loading(branch=br), dtype=float)
+            probs = []
+            for meth, xs, ys in (('loading_at', ps, ls), ('pressure_at', ls, ps)):
+                f = getattr(iso, meth)
+                try:
+                    got = numpy.asarray(f(xs, branch=br), dtype=float)
+                    if not numpy.allclose(got, ys, rtol=1e-9, atol=0):
+                        probs.append(f"{meth}(measured points) = {got} instead of the data {ys}")
+                    mid = (xs[:-1] + xs[1:]) / 2
+                    got = numpy.asarray(f(mid, branch=br), dtype=float)
+                    if not numpy.allclose(got, (ys[:-1] + ys[1:]) / 2, rtol=1e-9, atol=0):
+                        probs.append(f"{meth}(midpoints) = {got} instead of {(ys[:-1] + ys[1:]) / 2}")
+                    third = xs[:-1] + (xs[1:] - xs[:-1]) * 1e-3
+                    got = numpy.asarray(f(third, branch=br), dtype=float)
+                    want = ys[:-1] + (ys[1:] - ys[:-1]) * 1e-3
+                    if not numpy.allclose(got, want, rtol=1e-9, atol=0):
+                        probs.append(f"{meth}(a thousandth of the way to the next point) = {got} instead of {want}")
+                except Exception as exc:
+                    probs.append(f"{meth}: {type(exc).__name__}: {exc}"[:160])
+                for q, where in ((xs.max() * (1 + 1e-6), 'above'), (xs.min() * (1 - 1e-6), 'below')):
+                    try:
+                        v = f(q, branch=br)
+                        probs.append(f"{meth}({q!r}) {where} the measured range answered {v} instead of being refused")
+                    except Exception:
+                        pass
+            # against a permanently converted copy (interior points only: end points are subject to the unit round trip's last bit)
+            try:
+                cp = _copy(iso)
+                cp.convert_pressure(unit_to='Pa')
+                cp.convert_loading(unit_to='mol')
+                q = (ps[:-1] + ps[1:]) / 2
+                a = numpy.asarray(iso.loading_at(q * 1e5, branch=br, pressure_unit='Pa', loading_unit='mol'), dtype=float)
+                b = numpy.asarray(cp.loading_at(q * 1e5, branch=br), dtype=float)
+                if not numpy.allclose(a, b, rtol=1e-9, atol=0):
+                    probs.append(f"loading_at in Pa / mol: accessor {a} vs converted copy {b}")
+            except Exception as exc:
+                probs.append(f"converted copy: {type(exc).__name__}: {exc}"[:160])
+            yield {'name': f"interpolation|{tag}|{br}", 'ok': not probs, 'detail': '; '.join(probs[:3])}
+
+
+@replayer('c03.interpolation')
+def _interpolation(spec, model):
+    for r in interpolation_cases():
+        if r['name'] == spec['name']:
+            return {'confirmed': not r['ok'], 'observed': r['detail'], 'expected': 'data at measured points, straight line between, refusal outside, same as converted copy'}
+    return {'confirmed': False, 'error': 'case not found'}
